@@ -11,6 +11,7 @@ from permuta import cli as pcli
 from permuta import permutils
 
 from .. import engine, gen
+from ..lib import run_cli
 from .. import oracle as ref
 from ..engine import BAD, OK
 
@@ -176,10 +177,10 @@ def check_basis(case):
                     return BAD(name.replace(".", "_"), {"symmetry": g, "basis": [list(p) for p in img], "got": got, "want": want})
             if g in ("id", "rot") and all(len(p) <= 9 for p in img):
                 arg = "_".join("".join(map(str, p)) for p in img)
-                out = _cli(pcli.has_poly_growth, arg)
+                out = run_cli(["poly", arg])
                 if ("is polynomial" in out) != o_polynomial(img) or ("is not polynomial" in out) == o_polynomial(img):
                     return BAD("cli_poly", {"arg": arg, "out": out})
-                out = _cli(pcli.has_regular_insertion_encoding, arg)
+                out = run_cli(["insenc", arg])
                 r, m = o_rightmost(img), o_maximum(img)
                 if ("regular rightmost insertion encoding" in out) != r or ("regular topmost insertion encoding" in out) != m or ("does not have a regular insertion encoding" in out) != (not r and not m):
                     return BAD("cli_insenc", {"arg": arg, "out": out, "rightmost": r, "topmost": m})
